@@ -185,3 +185,11 @@ def run(ctx, report: Report) -> None:
     error_type_table(ctx, r6, depth=2 if ctx.tier == 'quick' else 3)
     r6.findings[:] = [f for f in r6.findings if 'error offset' not in f.key]
 
+    # ---- R7 --------------------------------------------------------------------------------------------------------------
+    # "returns or raises" presupposes that compile() comes back at all: no regex the parser applies to the pattern text (or to a
+    # custom definition) may be exponentially ambiguous - the same analysis as C07-R1, restricted to css_parser and util
+    r7 = report.rule('C06-R7', 'compile() comes back: no parser-side regex has exponential ambiguity', floor=23)
+    from .c07 import eda_scan
+    eda_scan(ctx, r7, [r for r in inv.regexes if r.module in ('css_parser', 'util')])
+
+
